@@ -52,10 +52,15 @@ TABLE_ORDER = list(SIMFILE_TABLE)
 
 
 def anchors():
-    from simfile import convert as C
+    from ..core import pick
 
-    return {"_convert": C._convert, "_copy_properties": C._copy_properties, "_should_copy_property": C._should_copy_property,
-            "_convert_warps": C._convert_warps, "ssc_to_sm": C.ssc_to_sm}
+    return pick(
+        "simfile.convert:_convert",
+        "simfile.convert:_copy_properties",
+        "simfile.convert:_should_copy_property",
+        "simfile.convert:_convert_warps",
+        "simfile.convert:ssc_to_sm",
+    )
 
 
 def state_value(rng, key, state):
